@@ -16,6 +16,7 @@ type art struct {
 	Params  Params
 	Granted string
 	Sub     string
+	GrantedRes []string // resources the owner granted (for client_credentials: requested)
 }
 
 type SysGen struct {
@@ -35,6 +36,95 @@ type SysGen struct {
 }
 
 var scopePool = []string{"openid", "email", "profile", "offline_access", "pay:1", "pay:2", "admin"}
+
+// resource indicators: what a world may configure, and URIs no world configures (a foreign host, a
+// near miss of a configured one, a case variant)
+var resourcePool = []string{"https://rs.example/api", "https://rs.example/files", "https://pay.example"}
+var foreignResources = []string{"https://evil.example/rs", "https://rs.example/api/", "https://RS.example/api", "https://rs.example"}
+
+// the resources the world configured (nil: resource indicators are off)
+func (g *SysGen) serverResources() []string {
+	for _, o := range g.W.Spec.Opts {
+		if o.Name == "WithResourceIndicators" || o.Name == "WithResourceIndicatorsRequired" {
+			return append([]string{o.S}, o.L...)
+		}
+	}
+	return nil
+}
+
+func subList(r *rand.Rand, l []string) []string {
+	var out []string
+	for _, x := range l {
+		if r.Intn(2) == 0 {
+			out = append(out, x)
+		}
+	}
+	return out
+}
+
+// resources for an authorization / backchannel request
+func (g *SysGen) randAuthResources() []string {
+	cfgd := g.serverResources()
+	if cfgd == nil {
+		if g.chance(8) {
+			return []string{pick(g.R, resourcePool)} // ignored when the feature is off
+		}
+		return nil
+	}
+	if g.R.Intn(5) < 2 && !g.has("WithResourceIndicatorsRequired") || g.chance(g.DevRate/3) {
+		return nil
+	}
+	out := subList(g.R, cfgd)
+	if len(out) == 0 {
+		out = []string{pick(g.R, cfgd)}
+	}
+	if g.chance(g.DevRate / 2) {
+		out = append(out, pick(g.R, append(append([]string{}, foreignResources...), resourcePool...)))
+	}
+	g.R.Shuffle(len(out), func(i, j int) { out[i], out[j] = out[j], out[i] })
+	return out
+}
+
+// what the resource owner grants for a request that asked for req
+func (g *SysGen) randGrantedResources(req []string) []string {
+	switch x := g.R.Intn(10); {
+	case x < 6:
+		return append([]string(nil), req...)
+	case x < 8:
+		return subList(g.R, req)
+	case x < 9:
+		return nil
+	}
+	// the owner's decision is not confined to the request
+	return append(append([]string(nil), req...), pick(g.R, append(append([]string{}, resourcePool...), foreignResources[0])))
+}
+
+// resources for a token request against a grant whose owner granted `granted`
+func (g *SysGen) randTokenResources(granted []string) []string {
+	cfgd := g.serverResources()
+	if cfgd == nil {
+		if g.chance(8) {
+			return []string{pick(g.R, resourcePool)}
+		}
+		return nil
+	}
+	switch x := g.R.Intn(12); {
+	case x < 4:
+		return nil
+	case x < 8:
+		out := subList(g.R, granted)
+		if len(out) == 0 && len(granted) > 0 {
+			out = []string{pick(g.R, granted)}
+		}
+		return out
+	case x < 10:
+		// more than was granted: a configured resource the owner did not grant (also when nothing was granted)
+		return append(append([]string(nil), granted...), pick(g.R, cfgd))
+	case x < 11:
+		return []string{pick(g.R, cfgd)}
+	}
+	return append(subList(g.R, granted), pick(g.R, foreignResources))
+}
 
 func pick[T any](r *rand.Rand, l []T) T { return l[r.Intn(len(l))] }
 
@@ -77,6 +167,20 @@ func randomSpec(r *rand.Rand, flavour string, want map[string]bool) WorldSpec {
 	}
 	if want["implicit"] || r.Intn(2) == 0 {
 		opts = append(opts, Opt{Name: "WithImplicitGrant"})
+	}
+	if want["resources"] || r.Intn(2) == 0 {
+		name := "WithResourceIndicators"
+		if r.Intn(8) == 0 {
+			name = "WithResourceIndicatorsRequired"
+		}
+		first := pick(r, resourcePool)
+		var rest []string
+		for _, x := range resourcePool {
+			if r.Intn(3) != 0 { // may repeat the first one: appendIfNotIn
+				rest = append(rest, x)
+			}
+		}
+		opts = append(opts, Opt{Name: name, S: first, L: rest})
 	}
 	if want["refresh"] || r.Intn(4) != 0 {
 		opts = append(opts, Opt{Name: "WithRefreshTokenGrant", Z: pick(r, []int{200, 400, 1000})})
@@ -257,6 +361,7 @@ func (g *SysGen) randParams(c *ClientSpec) Params {
 		p.RespType = pick(g.R, c.RespTypes)
 	}
 	p.Scopes = g.randScopes(c)
+	p.Resources = g.randAuthResources()
 	if g.R.Intn(4) != 0 {
 		p.State = pick(g.R, []string{"st-1", "st-2", "s t&x=1"})
 	}
@@ -316,7 +421,7 @@ func (g *SysGen) randPol(c *ClientSpec, p Params) Pol {
 		if g.R.Intn(3) == 0 {
 			granted = subScopes(g.R, p.Scopes)
 		}
-		return Pol{Kind: "PolSuccess", Sub: pick(g.R, []string{"alice", "bob"}), Granted: granted}
+		return Pol{Kind: "PolSuccess", Sub: pick(g.R, []string{"alice", "bob"}), Granted: granted, Resources: g.randGrantedResources(p.Resources)}
 	case x < 82:
 		return Pol{Kind: "PolInProgress"}
 	case x < 93:
@@ -329,10 +434,10 @@ func (g *SysGen) randPol(c *ClientSpec, p Params) Pol {
 func (g *SysGen) learnNav(o Obs, client int, p Params, pol Pol) {
 	if o.Kind == "Nav" {
 		if o.NCode != 0 {
-			g.codes = append(g.codes, &art{H: o.NCode, Client: client, Step: len(g.Ops), Params: p, Granted: pol.Granted, Sub: pol.Sub})
+			g.codes = append(g.codes, &art{H: o.NCode, Client: client, Step: len(g.Ops), Params: p, Granted: pol.Granted, Sub: pol.Sub, GrantedRes: pol.Resources})
 		}
 		if o.NAt != 0 {
-			g.ats = append(g.ats, &art{H: o.NAt, Client: client, Granted: pol.Granted})
+			g.ats = append(g.ats, &art{H: o.NAt, Client: client, Granted: pol.Granted, GrantedRes: pol.Resources})
 		}
 	}
 	if o.Kind == "Page" && o.H != 0 {
@@ -439,15 +544,15 @@ func (g *SysGen) mvPar() {
 	}
 }
 
-func (g *SysGen) learnTokens(o Obs, client int, granted string) {
+func (g *SysGen) learnTokens(o Obs, client int, granted string, grantedRes []string) {
 	if o.Kind != "Tokens" {
 		return
 	}
 	if o.At != 0 {
-		g.ats = append(g.ats, &art{H: o.At, Client: client, Granted: granted})
+		g.ats = append(g.ats, &art{H: o.At, Client: client, Granted: granted, GrantedRes: grantedRes})
 	}
 	if o.Rt != 0 {
-		g.rts = append(g.rts, &art{H: o.Rt, Client: client, Granted: granted})
+		g.rts = append(g.rts, &art{H: o.Rt, Client: client, Granted: granted, GrantedRes: grantedRes})
 	}
 }
 
@@ -503,6 +608,7 @@ func (g *SysGen) mvTokenCode() {
 		} else if g.R.Intn(4) == 0 {
 			op.Scope = subScopes(g.R, a.Granted)
 		}
+		op.Resources = g.randTokenResources(a.GrantedRes)
 		a.Used = true
 	} else {
 		op.Code = unknownBase + Handle(g.R.Intn(5)+1)
@@ -514,7 +620,7 @@ func (g *SysGen) mvTokenCode() {
 	}
 	o := g.do(op)
 	if a != nil {
-		g.learnTokens(o, a.Client, a.Granted)
+		g.learnTokens(o, a.Client, a.Granted, a.GrantedRes)
 	}
 }
 
@@ -551,6 +657,7 @@ func (g *SysGen) mvRefresh() {
 		if g.chance(g.DevRate / 2) {
 			op.Cred = Cred{ID: pick(g.R, g.clients()).ID, OK: true}
 		}
+		op.Resources = g.randTokenResources(a.GrantedRes)
 	} else {
 		op.Refresh = unknownBase + Handle(g.R.Intn(5)+1)
 		op.Cred = g.cred(pick(g.R, g.clients()).ID)
@@ -563,7 +670,7 @@ func (g *SysGen) mvRefresh() {
 	}
 	o := g.do(op)
 	if a != nil {
-		g.learnTokens(o, a.Client, a.Granted)
+		g.learnTokens(o, a.Client, a.Granted, a.GrantedRes)
 	}
 }
 
@@ -571,8 +678,10 @@ func (g *SysGen) mvCC() {
 	c := pick(g.R, g.clients())
 	op := Op{Kind: "Token", Grant: "client_credentials", Cred: g.cred(c.ID), Scope: g.randScopes(&c)}
 	op.HG, op.BA = g.hgba()
+	// owner-less grant: anything the server configured may be asked for, nothing else
+	op.Resources = g.randTokenResources(g.serverResources())
 	o := g.do(op)
-	g.learnTokens(o, c.ID, op.Scope)
+	g.learnTokens(o, c.ID, op.Scope, op.Resources)
 }
 
 func (g *SysGen) randTok() (PTok, *art) {
@@ -678,7 +787,7 @@ func (g *SysGen) mvBcAuthorize() {
 	if g.chance(g.DevRate / 2) {
 		c = pick(g.R, g.clients())
 	}
-	p := Params{Scopes: g.randScopes(&c), LoginHint: pick(g.R, []string{"alice", "bob"})}
+	p := Params{Scopes: g.randScopes(&c), LoginHint: pick(g.R, []string{"alice", "bob"}), Resources: g.randAuthResources()}
 	if c.CibaMode == "ping" || c.CibaMode == "push" || g.chance(10) {
 		p.NotifToken = unknownBase + 5000 + Handle(len(g.Ops))
 	}
@@ -699,10 +808,11 @@ func (g *SysGen) mvBcAuthorize() {
 	if g.R.Intn(3) == 0 {
 		granted = subScopes(g.R, p.Scopes)
 	}
-	op := Op{Kind: "BcAuthorize", Cred: g.cred(c.ID), Params: p, InitOK: !g.chance(g.DevRate / 2), Sub: p.LoginHint, Granted: granted}
+	op := Op{Kind: "BcAuthorize", Cred: g.cred(c.ID), Params: p, InitOK: !g.chance(g.DevRate / 2), Sub: p.LoginHint, Granted: granted,
+		GrantedRes: g.randGrantedResources(p.Resources)}
 	o := g.do(op)
 	if o.Kind == "Ciba" {
-		g.cibas = append(g.cibas, &art{H: o.H, Client: c.ID, Params: p, Granted: granted})
+		g.cibas = append(g.cibas, &art{H: o.H, Client: c.ID, Params: p, Granted: granted, GrantedRes: op.GrantedRes})
 	}
 }
 
@@ -726,6 +836,7 @@ func (g *SysGen) mvCibaPoll() {
 		if g.chance(g.DevRate / 2) {
 			op.Scope = a.Granted + " admin"
 		}
+		op.Resources = g.randTokenResources(a.GrantedRes)
 	} else {
 		op.AuthReq = unknownBase + Handle(g.R.Intn(5)+1)
 		op.Cred = g.cred(pick(g.R, g.clients()).ID)
@@ -735,7 +846,7 @@ func (g *SysGen) mvCibaPoll() {
 	}
 	o := g.do(op)
 	if a != nil {
-		g.learnTokens(o, a.Client, a.Granted)
+		g.learnTokens(o, a.Client, a.Granted, a.GrantedRes)
 	}
 }
 
@@ -758,10 +869,10 @@ func (g *SysGen) mvNotify() {
 	if a != nil {
 		for _, n := range o.Notifs {
 			if n.At != 0 {
-				g.ats = append(g.ats, &art{H: n.At, Client: a.Client, Granted: a.Granted})
+				g.ats = append(g.ats, &art{H: n.At, Client: a.Client, Granted: a.Granted, GrantedRes: a.GrantedRes})
 			}
 			if n.Rt != 0 {
-				g.rts = append(g.rts, &art{H: n.Rt, Client: a.Client, Granted: a.Granted})
+				g.rts = append(g.rts, &art{H: n.Rt, Client: a.Client, Granted: a.Granted, GrantedRes: a.GrantedRes})
 			}
 		}
 	}
